@@ -407,6 +407,18 @@ def run(ctx: Ctx, rep: Report, tier: str) -> None:  # noqa: C901
                         r = ctx.prog.resolve_name(sp.module, rhs.func.id) if isinstance(rhs.func, ast.Name) else None
                         if r is akn:
                             uses = True
+    if not uses:
+        # the membership test may sit in a local predicate / lambda / comprehension (takewhile(is_port, words))
+        from .common import single_env
+
+        senv = single_env(sp.node)
+        for x in ast.walk(sp.node):
+            if isinstance(x, ast.Compare) and any(isinstance(o, ast.In) for o in x.ops):
+                rhs = x.comparators[0]
+                if isinstance(rhs, ast.Name) and rhs.id in senv:
+                    rhs = senv[rhs.id]
+                if isinstance(rhs, ast.Call) and isinstance(rhs.func, ast.Name) and ctx.prog.resolve_name(sp.module, rhs.func.id) is akn:
+                    uses = True
     rep.instance()
     if uses:
         rep.ok("parsers._parse_dstport_option", "classifies tokens by membership in all_known_names()", where=where(sp))
